@@ -160,10 +160,35 @@ def pairs_for(case, i):
     return out
 
 
+class _Quiet:
+    def cls(self, *a, **k):
+        pass
+
+    def skip(self, *a, **k):
+        pass
+
+    def nt(self, *a, **k):
+        pass
+
+
 def check(case, rec):
+    t = gen.build(case["table"], rec=rec)
+    _check(case, rec, t)
+    if not t.is_empty() and len(case["table"]["obs"]) % 3 == 0 and \
+            len(case["table"]["obs"]) < 100:
+        # partitioned / collapsed again after in-place edits of the values
+        t.transform(lambda v, i, md: v * 2, axis="observation", inplace=True)
+        rec.cls("asked-again-after-in-place-edits")
+        try:
+            _check(case, _Quiet(), t)
+        except Violation as v:
+            raise Violation(v.sub, "asked again after doubling the values "
+                            "in place: " + v.msg)
+
+
+def _check(case, rec, t):
     axis, what = case["axis"], case["what"]
     inv = "observation" if axis == "sample" else "sample"
-    t = gen.build(case["table"], rec=rec)
     before = observe.snapshot(t)
     ref = Ref.from_snapshot(before)
     ids = ref.ids(axis)
